@@ -628,7 +628,7 @@ Proof. apply traverse_scalar_stream. Qed.
 
 (* the premises of the relation that mention the parsers follow from the grammar-level theorems *)
 Lemma num_value_decimal n :
-  num_wf n -> num_kind n = NKDecimal -> in_int32 (exp_value (n_exp n)) = true -> -2147483648 <= d_exp (dec_denotes n) ->
+  num_wf n -> num_kind n = NKDecimal -> -2147483648 <= d_exp (dec_denotes n) <= 2147483647 -> written_exp_int64 n = true ->
   num_value parse_decimal_text n = Some (TDecimal, XDecimal (dec_denotes n)).
 Proof. intros Hwf Hk H1 H2. unfold num_value. rewrite Hk, (parse_decimal_spelling n Hwf Hk H1 H2). reflexivity. Qed.
 Lemma ts_item ann lst ctx sh :
